@@ -114,7 +114,7 @@ def check_chain(ck):
             ck.ob("C36.chain", cp, t.test, bool(acts), "the branch for a cancelled source cancels/settles the target (cancellation is copied)")
 
 
-def check_multi(ck):
+def check_multi(ck, P="C36"):
     mf = ck.func(G, "multi_future")
     cfg = mf.cfg
     nested = [nf for nf in ck.repo.nested(mf) if nf.parent is mf and isinstance(nf.node, q.FuncNode)]
@@ -128,25 +128,41 @@ def check_multi(ck):
         raise AnalysisError("%s: cannot identify the output future" % mf.site())
     out = next(iter(outs))
     fresh = any(isinstance(getattr(st, "value", None), ast.Call) and q.call_attr(st.value) in ("Future", "_create_future") for st in q.stores_to(mf.node, out))
-    ck.ob("C36.multi", mf, mf.node, fresh, "multi_future returns a fresh future", construct="output fresh")
+    ck.ob(P + ".multi", mf, mf.node, fresh, "multi_future returns a fresh future", construct="output fresh")
     lists = [st for st in own_walk(mf.node) if isinstance(st, ast.Assign) and q.is_call(st.value, "list") and st.value.args and q.is_call(st.value.args[0], "map") and q.dotted(st.value.args[0].args[0]) == "convert_yielded"]
     if len(lists) != 1:
         raise AnalysisError("%s: child conversion `list(map(convert_yielded, ...))` not recognised" % mf.site())
     kids = sorted(q.assigned_paths(lists[0]))[0]
-    sets_ = [st for st in own_walk(mf.node) if isinstance(st, ast.Assign) and q.is_call(st.value, "set") and st.value.args and q.dotted(st.value.args[0]) == kids]
-    if len(sets_) != 1:
+    # the set of unfinished children: the collection the callback removes its argument from
+    cbp = cb.params()
+    rem = [c for c in own_walk(cb.node) if isinstance(c, ast.Call) and isinstance(c.func, ast.Attribute) and c.func.attr in ("remove", "discard") and isinstance(c.func.value, ast.Name)
+           and len(c.args) == 1 and cbp and q.dotted(c.args[0]) == cbp[0]]
+    names = {c.func.value.id for c in rem}
+    if len(names) != 1:
         raise AnalysisError("%s: the set of unfinished children not recognised" % mf.site())
-    unfinished = sorted(q.assigned_paths(sets_[0]))[0]
+    unfinished = next(iter(names))
+    ust = q.stores_to(mf.node, unfinished)
+    full = [st for st in ust if isinstance(getattr(st, "value", None), ast.Call) and q.call_attr(st.value) in ("set", "frozenset") and st.value.args and q.dotted(st.value.args[0]) == kids]
+    empty = [st for st in ust if isinstance(getattr(st, "value", None), ast.Call) and q.call_attr(st.value) == "set" and not st.value.args]
+    grows = [c for c in own_walk(mf.node) if isinstance(c, ast.Call) and method_call_on(c, unfinished, "add", "update")]
+    if len(ust) == 1 and full and not grows:
+        ck.ob(P + ".multi", mf, ust[0], True, "the set of unfinished children is complete (set(all children)) before any callback is registered")
+    elif ust and all(st in empty for st in ust) and grows:
+        ck.ob(P + ".multi", mf, grows[0], False,
+              "the set of unfinished children must be complete before the first callback is registered: it is filled while registering, and a callback registered on an already finished child runs at once and sees a set that is empty too early")
+    else:
+        raise AnalysisError("%s: the set of unfinished children is built in an unrecognised way" % mf.site())
+    sets_ = ust
 
     # -- listening: each distinct child once
     loops = [nd for nd in cfg.stmt_nodes(lambda nd: nd.kind == "for") if q.dotted(nd.ast.iter) == kids and isinstance(nd.ast.target, ast.Name)]
     regs = own_find(mf, lambda x: isinstance(x, ast.Call) and q.call_attr(x) in ("future_add_done_callback", "add_future") and len(x.args) == 2 and q.dotted(x.args[1]) == cb.name)
-    ck.floor("C36.multi-listen", len(regs), 1, "registrations of the callback")
+    ck.floor(P + ".multi-listen", len(regs), 1, "registrations of the callback")
     facts = must_facts(cfg)
     for nd, c in regs:
         x = q.dotted(c.args[0])
         lp = [l for l in loops if l.ast.target.id == x and any(c is y for st in l.ast.body for y in ast.walk(st))]
-        ck.ob("C36.multi-listen", mf, c, len(lp) == 1, "the callback is registered inside the loop over all children, on the loop element")
+        ck.ob(P + ".multi-listen", mf, c, len(lp) == 1, "the callback is registered inside the loop over all children, on the loop element")
         # `x in S` is False on every path from the start of the iteration to the registration (whatever the control-flow
         # shape: nested if, `continue` guard, early return); the fact is only forgotten when x or S is re-bound — S.add(x)
         # in between is exactly what is expected
@@ -161,46 +177,60 @@ def check_multi(ck):
                     if any(a is y for l in lp for st in l.ast.body for y in ast.walk(st)) and (t, False) in sf[n2.id]]
             if adds and init:
                 ok = True
-        ck.ob("C36.multi-listen", mf, c, ok, "a child is listened to only if it was not seen before, and is then recorded as seen (duplicates are listened to once, matching the set of unfinished children)")
+        ck.ob(P + ".multi-listen", mf, c, ok, "a child is listened to only if it was not seen before, and is then recorded as seen (duplicates are listened to once, matching the set of unfinished children)")
     # loop cannot skip children
     from .c34 import _leaves_loop
     for l in loops:
         if any(any(c is y for st in l.ast.body for y in ast.walk(st)) for _, c in regs):
-            ck.ob("C36.multi-listen", mf, l.ast.iter, not _leaves_loop(l.ast), "the registration loop visits every child")
+            ck.ob(P + ".multi-listen", mf, l.ast.iter, not _leaves_loop(l.ast), "the registration loop visits every child")
 
     # -- empty input settles immediately
     im = [s for s in own_settle_sites(mf) if s[2] == out]
-    ck.ob("C36.multi", mf, mf.node, len(im) >= 1 and all(holds(facts[s[0].id], kids, False) for s in im), "multi_future settles the output itself only for an empty child list", construct="empty input settle")
-    check_settles(ck, "C36.settle", mf, allow_safe_unguarded=False)
+    ck.ob(P + ".multi", mf, mf.node, len(im) >= 1 and all(holds(facts[s[0].id], kids, False) for s in im), "multi_future settles the output itself only for an empty child list", construct="empty input settle")
+    check_settles(ck, P + ".settle", mf, allow_safe_unguarded=False)
 
     # -- callback
     fp = cb.params()
     if len(fp) != 1:
         raise AnalysisError("%s: unexpected signature" % cb.site())
     rm = own_find(cb, lambda x: method_call_on(x, unfinished, "remove", "discard") and len(x.args) == 1 and q.dotted(x.args[0]) == fp[0])
-    ck.ob("C36.multi", cb, cb.node, len(rm) == 1 and cb.cfg.postdominates(rm[0][0], cb.cfg.entry) if rm else False, "the callback first removes its child from the unfinished set", construct="callback removes child")
-    n = check_outcome_reads(ck, "C36.cancel-aware", cb)
-    ck.floor("C36.cancel-aware", n, 1, "outcome reads in multi_future.callback")
+    ck.ob(P + ".multi", cb, cb.node, len(rm) == 1 and cb.cfg.postdominates(rm[0][0], cb.cfg.entry) if rm else False, "the callback first removes its child from the unfinished set", construct="callback removes child")
+    n = check_outcome_reads(ck, P + ".cancel-aware", cb)
+    ck.floor(P + ".cancel-aware", n, 1, "outcome reads in multi_future.callback")
     ss = [s for s in own_settle_sites(cb)]
-    ck.floor("C36.settle", len(ss), 2, "settle sites in multi_future.callback")
+    ck.floor(P + ".settle", len(ss), 2, "settle sites in multi_future.callback")
     for s in ss:
-        ck.ob("C36.multi", cb, s[1], s[2] == out, "the callback settles only the output future")
-    check_settles(ck, "C36.settle", cb, allow_safe_unguarded=False)
+        ck.ob(P + ".multi", cb, s[1], s[2] == out, "the callback settles only the output future")
+    check_settles(ck, P + ".settle", cb, allow_safe_unguarded=False)
     cfacts = must_facts(cb.cfg)
     guard_ok = True
     for s in ss:
-        guard_ok &= ck.ob("C36.multi", cb, s[1], holds(cfacts[s[0].id], unfinished, False), "the output is settled only after the last child finished (unfinished set empty)")
+        guard_ok &= ck.ob(P + ".multi", cb, s[1], holds(cfacts[s[0].id], unfinished, False), "the output is settled only after the last child finished (unfinished set empty)")
     # reads happen in input order and feed the result list
     rl = [nd for nd in cb.cfg.stmt_nodes(lambda nd: nd.kind == "for") if isinstance(nd.ast.target, ast.Name)]
     rl = [nd for nd in rl if any(method_call_on(y, nd.ast.target.id, "result") for st in nd.ast.body for y in ast.walk(st))]
-    ck.ob("C36.multi-order", cb, cb.node, len(rl) == 1, "one loop reads the children's results", construct="result loops=%d" % len(rl))
+    # the comprehension form of the same read: res = [x.result() for x in <children>]
+    comps = [st for st in own_walk(cb.node) if isinstance(st, ast.Assign) and isinstance(st.value, ast.ListComp) and len(st.value.generators) == 1
+             and isinstance(st.value.generators[0].target, ast.Name) and method_call_on(st.value.elt, st.value.generators[0].target.id, "result")]
+    if len(rl) + len(comps) != 1:
+        raise AnalysisError("%s: cannot identify the single ordered read of the children's results (loops=%d comprehensions=%d)" % (cb.site(), len(rl), len(comps)))
+    for st in comps:
+        g = st.value.generators[0]
+        ck.ob(P + ".multi-order", cb, st, q.dotted(g.iter) == kids and not g.ifs, "results are read in input order (comprehension over the ordered child list %s)" % kids)
+        res = sorted(q.assigned_paths(st))[0]
+        for s_ in ss:
+            c = s_[1]
+            if q.call_attr(c) == "future_set_result_unless_cancelled" or (isinstance(c.func, ast.Attribute) and c.func.attr == "set_result"):
+                v = c.args[-1]
+                okv = q.dotted(v) == res or (q.is_call(v, "dict") and len(v.args) == 1 and q.is_call(v.args[0], "zip") and len(v.args[0].args) == 2 and q.dotted(v.args[0].args[1]) == res)
+                ck.ob(P + ".multi-order", cb, c, okv, "the output value is built from the ordered result list")
     for nd in rl:
         x = nd.ast.target.id
-        ck.ob("C36.multi-order", cb, nd.ast.iter, q.dotted(nd.ast.iter) == kids, "results are read in input order (iteration over the ordered child list %s, not a set)" % kids)
+        ck.ob(P + ".multi-order", cb, nd.ast.iter, q.dotted(nd.ast.iter) == kids, "results are read in input order (iteration over the ordered child list %s, not a set)" % kids)
         apps = [y for st in nd.ast.body for y in ast.walk(st) if isinstance(y, ast.Call) and isinstance(y.func, ast.Attribute) and y.func.attr == "append" and len(y.args) == 1 and method_call_on(y.args[0], x, "result")]
-        ck.ob("C36.multi-order", cb, nd.ast.iter, len(apps) == 1, "each child's result is appended to the result list")
+        ck.ob(P + ".multi-order", cb, nd.ast.iter, len(apps) == 1, "each child's result is appended to the result list")
         from .c34 import _leaves_loop as _ll
-        ck.ob("C36.multi-order", cb, nd.ast.iter, not _ll(nd.ast), "the result loop visits every child (first failure in order wins because later ones find the output done)")
+        ck.ob(P + ".multi-order", cb, nd.ast.iter, not _ll(nd.ast), "the result loop visits every child (first failure in order wins because later ones find the output done)")
         if apps:
             res = q.dotted(apps[0].func.value)
             for s in ss:
@@ -208,14 +238,14 @@ def check_multi(ck):
                 if q.call_attr(c) == "future_set_result_unless_cancelled" or (isinstance(c.func, ast.Attribute) and c.func.attr == "set_result"):
                     v = c.args[-1]
                     if q.dotted(v) == res:
-                        ck.ob("C36.multi-order", cb, c, True, "list input: the output is the result list")
+                        ck.ob(P + ".multi-order", cb, c, True, "list input: the output is the result list")
                     elif q.is_call(v, "dict") and len(v.args) == 1 and q.is_call(v.args[0], "zip") and len(v.args[0].args) == 2 and q.dotted(v.args[0].args[1]) == res:
                         keys = q.dotted(v.args[0].args[0])
                         kst = [st for st in q.stores_to(mf.node, keys) if isinstance(getattr(st, "value", None), ast.Call)]
                         ok = any(q.is_call(st.value, "list") and st.value.args and method_call_on(st.value.args[0], None, "keys") or (q.is_call(st.value, "list") and st.value.args and isinstance(st.value.args[0], ast.Call) and q.call_attr(st.value.args[0]) == "keys") for st in kst)
-                        ck.ob("C36.multi-order", cb, c, ok and holds(cfacts[s[0].id], "%s is None" % keys, False), "dict input: results are zipped with list(children.keys()) (same order as children.values())")
+                        ck.ob(P + ".multi-order", cb, c, ok and holds(cfacts[s[0].id], "%s is None" % keys, False), "dict input: results are zipped with list(children.keys()) (same order as children.values())")
                     else:
-                        ck.ob("C36.multi-order", cb, c, False, "the output value is built from the ordered result list")
+                        ck.ob(P + ".multi-order", cb, c, False, "the output value is built from the ordered result list")
     # typestate: once the last child finished, the callback leaves the output done
     sc = node_counts(cb, lambda x: any(x is s[1] for s in ss))
     donef = "%s.done()" % out
@@ -237,16 +267,16 @@ def check_multi(ck):
         return v
 
     normal, _ = exit_states(cb.cfg, (0, None, None), tr, edge_transfer=edge)
-    ck.floor("C36.multi", len(normal), 2, "normal exit states of the callback")
+    ck.floor(P + ".multi", len(normal), 2, "normal exit states of the callback")
     for _f, (settled, last, isdone) in normal:
         if last is None:
             if not guard_ok:
                 continue  # already reported: a settle is not under the `no children remain` guard
             raise AnalysisError("%s: exit state does not decide whether children remain" % cb.site())
         if last:
-            ck.ob("C36.multi", cb, cb.node, bool(isdone), "when the last child finished, every normal path leaves the output future done (settled here=%d)" % settled, construct="exit last-child done=%s" % bool(isdone))
+            ck.ob(P + ".multi", cb, cb.node, bool(isdone), "when the last child finished, every normal path leaves the output future done (settled here=%d)" % settled, construct="exit last-child done=%s" % bool(isdone))
         else:
-            ck.ob("C36.multi", cb, cb.node, settled == 0, "while children remain the output is not settled", construct="exit children-remain settles=%d" % settled)
+            ck.ob(P + ".multi", cb, cb.node, settled == 0, "while children remain the output is not settled", construct="exit children-remain settles=%d" % settled)
 
 
 def check_wait_iterator(ck):
@@ -492,6 +522,7 @@ def _narrow_cancel_handler(root):
 
 
 MUTANTS = [
+    ("multi fills the unfinished set while registering (seeded C36-adv2)", _in(G, "multi_future", lambda root: _merge_sets(root)), "C36.multi"),
     ("WaitIterator.done() ignores inputs that finished but were not yet delivered", _in(G, "WaitIterator.done", replace_expr(lambda n: isinstance(n, ast.BoolOp) and isinstance(n.op, ast.Or), lambda n: n.values[1])), "C36.waititer"),
     ("WaitIterator numbers positional inputs from 1", _in(G, "WaitIterator.__init__", replace_expr(lambda n: q.is_call(n, "enumerate"), lambda n: ast.Call(func=n.func, args=n.args + [ast.Constant(value=1)], keywords=[]))), "C36.waititer"),
     ("future_set_result_unless_cancelled skips finished-but-not-cancelled... tests done() instead of cancelled()", _in(C, "future_set_result_unless_cancelled", _rename_attr("cancelled", "done")), "C36.helpers"),
@@ -555,3 +586,18 @@ def _iterate_plain(root):
             n.iter = ast.Name(id="futures", ctx=ast.Load())
             return True
     return False
+
+
+def _merge_sets(root):
+    ok = False
+    for st in root.body:
+        if isinstance(st, ast.Assign) and "unfinished_children" in ast.unparse(st.targets[0]) and "set(" in ast.unparse(st.value):
+            st.value = parse_expr("set()")
+            ok = True
+    if not ok:
+        return False
+    for n in ast.walk(root):
+        if isinstance(n, ast.Name) and n.id == "listening":
+            n.id = "unfinished_children"
+    root.body = [st for st in root.body if not (isinstance(st, (ast.Assign, ast.AnnAssign)) and ast.unparse(st).startswith("unfinished_children: set"))]
+    return True
